@@ -362,6 +362,25 @@ def _check_normalisers(ctx: Ctx) -> None:
                 m = n.value.left
                 if isinstance(m, ast.Call) and norm(m.func) == 'np.linalg.norm' and m.args:
                     cands.append((n.targets[0].id, m, n.value.right))
+        if len(cands) == 0:
+            # recognisably wrong: the stored precoder is divided by something that contains no norm at all (its power is then whatever the
+            # product happens to have - exactly the budget only for a single orthonormal column)
+            from ..astutil import expander as _expander
+            _ex = _expander(fn)
+            rets_ = [n for n in walk_no_nested(fn.node) if isinstance(n, ast.Return) and isinstance(n.value, ast.Tuple)]
+            if len(rets_) == 1:
+                prec_ = norm(rets_[0].value.elts[0])
+                st_ = [n for n in ast.walk(fn.node) if isinstance(n, ast.Assign) and isinstance(n.targets[0], ast.Subscript)
+                       and norm(n.targets[0].value) == prec_ and isinstance(n.value, ast.BinOp) and isinstance(n.value.op, ast.Div)]
+                if len(st_) == 1:
+                    den_ = _ex(st_[0].value.right)
+                    if not any(isinstance(x, ast.Call) and 'norm' in norm(x.func) for x in ast.walk(den_)) and \
+                            not any(isinstance(x, ast.Call) and norm(x.func) in ('np.trace', 'np.sum', 'np.vdot') for x in ast.walk(den_)):
+                        ctx.obligation('C09.c', q, False, {'stored': norm(st_[0])[:90], 'divisor': norm(den_)[:60]})
+                        ctx.violation('C09.c', q, 'the user precoder `%s` is divided by `%s`, which does not contain the norm of that precoder: the user '
+                                      'transmits ||precoder||^2 x iPu, its exact power only when the reduced precoder happens to have unit norm (one '
+                                      'stream)' % (norm(st_[0].value.left)[:40], norm(den_)[:50]), fn.path, st_[0].lineno, operand='exact-power')
+                        continue
         if len(cands) != 1:
             ctx.error('C09.c: %s: expected one normaliser of the form ||X||_F / sqrt(P), found %d (cannot tell)' % (q, len(cands)))
         nname, m, den = cands[0]
